@@ -718,3 +718,99 @@ func TestPropIllTypedContentsNeverChangeKind(t *testing.T) {
 		recIll.MaybeSample(nt, func() any { return text })
 	})
 }
+
+// ---------------------------------------------------------------------------
+// Steps written as aliases. A step list may hold `*name` entries; an anchor name may be defined again
+// later in the document, and an alias means the latest definition before it. The rule is applied to
+// the mapping the alias stands for - not to whatever was decoded for that name earlier.
+
+var recAlias = ev.New("TestPropAliasedSteps", "step lists of 3-14 entries where an entry is a fresh row of the rule table (anchored under one of two names, so names get re-defined) or an alias of the latest definition of a name; expected kind per entry from the row the alias points to; exactly one sentinel of the right cause per unknown entry; non-trivial = an alias follows a re-definition of its name; distinct by document text")
+
+func TestPropAliasedSteps(t *testing.T) {
+	ev.Check(t, 1500, 60000, func(t *rapid.T) {
+		type def struct {
+			node *yaml.Node
+			kind string
+			sent error
+		}
+		current := map[string]*def{}
+		defined := map[string]int{}
+		var items []*yaml.Node
+		var kinds []string
+		var sents []error
+		nt := false
+		n := rapid.IntRange(3, 14).Draw(t, "n")
+		for i := 0; i < n; i++ {
+			name := rapid.SampledFrom([]string{"gate", "job"}).Draw(t, "anchor")
+			if d := current[name]; d != nil && rapid.IntRange(0, 2).Draw(t, "alias") > 0 {
+				items = append(items, doc.AliasNode(d.node))
+				kinds = append(kinds, d.kind)
+				sents = append(sents, d.sent)
+				if defined[name] > 1 {
+					nt = true
+				}
+				continue
+			}
+			mask := rapid.IntRange(0, 1<<len(kindKeys)-1).Draw(t, "mask") & rapid.IntRange(0, 1<<len(kindKeys)-1).Draw(t, "mask2")
+			typ := rapid.SampledFrom(typeValues).Draw(t, "type")
+			has := map[string]bool{}
+			var kv []*yaml.Node
+			for j, k := range kindKeys {
+				if mask&(1<<j) != 0 {
+					has[k] = true
+					var v yaml.Node
+					if err := yaml.Unmarshal([]byte(keyValueJSON[k]), &v); err != nil {
+						t.Fatal(err)
+					}
+					val := v.Content[0]
+					if val.Kind == yaml.ScalarNode && val.Tag == "!!null" {
+						val = doc.Plain("null")
+					}
+					kv = append(kv, doc.StrNode(k), val)
+				}
+			}
+			if typ != "<absent>" {
+				kv = append(kv, doc.StrNode("type"), doc.StrNode(typ))
+			}
+			kv = append(kv, doc.StrNode("label"), doc.StrNode(fmt.Sprintf("entry %d", i)))
+			node := doc.MapNode(false, kv...)
+			node.Anchor = name
+			k, s := expected(func(k string) bool { return has[k] }, typ, typ != "<absent>")
+			current[name] = &def{node: node, kind: k, sent: s}
+			defined[name]++
+			items = append(items, node)
+			kinds = append(kinds, k)
+			sents = append(sents, s)
+		}
+		root := doc.MapNode(false, doc.StrNode("steps"), doc.SeqNode(false, items...))
+		text, err := yaml.Marshal(doc.DocNode(root))
+		if err != nil {
+			t.Fatalf("harness: %v", err)
+		}
+		p, perr := pipeline.Parse(bytes.NewReader(text))
+		if perr != nil && !warning.Is(perr) {
+			t.Fatalf("Parse hard-failed: %v\n%s", perr, text)
+		}
+		if p == nil || len(p.Steps) != len(kinds) {
+			t.Fatalf("Parse returned %d steps, want %d (err %v)\n%s", len(p.Steps), len(kinds), perr, text)
+		}
+		wantUT, wantInf := 0, 0
+		for i, s := range p.Steps {
+			if got := kindOf(s); got != kinds[i] {
+				t.Fatalf("entry %d is a %s step, the rule applied to the mapping it stands for says %s\n%s", i, got, kinds[i], text)
+			}
+			switch sents[i] {
+			case pipeline.ErrUnknownStepType:
+				wantUT++
+			case pipeline.ErrStepTypeInference:
+				wantInf++
+			}
+		}
+		ut, inf := countSentinels(perr)
+		if ut != wantUT || inf != wantInf {
+			t.Fatalf("the warning names %d unknown types and %d failed inferences, the entries give %d and %d\n%v\n%s", ut, inf, wantUT, wantInf, perr, text)
+		}
+		recAlias.Case(ev.HashBytes(text), nt, fmt.Sprintf("entries>=%d", n/5*5))
+		recAlias.MaybeSample(nt, func() any { return string(text[:min(len(text), 900)]) })
+	})
+}
